@@ -102,6 +102,7 @@ type c33World struct {
 	written   []c33W
 	cycWrites []c33W
 	lease     int // partition claimed last (-1 none)
+	endLease  int // value of lease after the last cycle, before shutdown releases it
 	renewWait bool
 	renewCh   chan error
 	anomalies []string
@@ -305,6 +306,9 @@ func c33Execute(t *testing.T, cs c33Case) (obs []c33Obs, w *c33World) {
 			}
 			obs = append(obs, o)
 		}
+		w.mu.Lock()
+		w.endLease = w.lease
+		w.mu.Unlock()
 		cancel()
 		select {
 		case <-done:
@@ -355,9 +359,9 @@ func c33Oracle(cs c33Case, obs []c33Obs, w *c33World) (string, string, string) {
 		_ = lease
 	}
 	// clause 2: after the final fault-free cycle listing everything, every record of the leased partition is written
-	if w.lease >= 0 {
+	if w.endLease >= 0 {
 		for si, sg := range cs.Segs {
-			if sg.Part != w.lease {
+			if sg.Part != w.endLease {
 				continue
 			}
 			for _, r := range sg.Recs {
@@ -374,14 +378,16 @@ func c33Oracle(cs c33Case, obs []c33Obs, w *c33World) (string, string, string) {
 }
 
 func c33Classify(cs c33Case, seg int, r c33Rec, faulted map[int]int) string {
+	if cs.Noop && r.Off == 0 {
+		return "noop-store-offset-0-dropped"
+	}
 	if f, ok := faulted[seg]; ok {
 		if f == c33FLfs && r.Lfs {
 			return "lfs-fetch-error-drops-record"
 		}
-		return "failed-segment-skipped-then-later-commit"
-	}
-	if cs.Noop && r.Off == 0 {
-		return "noop-store-offset-0-dropped"
+		if !cs.Noop {
+			return "failed-segment-skipped-then-later-commit"
+		}
 	}
 	return "undelivered-record"
 }
